@@ -87,6 +87,15 @@ def gen_crate(rs, mir):
     return c
 
 
+class ExtDelegated(Exception):
+    """the generated program handed an external function to the host: with the minimal host of the documentation
+    (PanicHost / the repository's TestHost) call_dsp returns Err(..) -- a refusal at run time, not a wrong value"""
+
+    def __init__(self, name):
+        Exception.__init__(self, name)
+        self.name = name
+
+
 class RustRun(object):
     """the generated MimiumProgram<H> inside one path"""
 
@@ -102,6 +111,90 @@ class RustRun(object):
             return Sc('f64', f2b(48000.0))
         it.hooks['current_time'] = current_time
         it.hooks['sample_rate'] = sample_rate
+
+        def on_call_ext(it_, name, args):
+            tgt = args[0]
+            host = it_.load((tgt.cont, tgt.key)) if type(tgt) is Ref else tgt
+            if type(host) is Agg and host.ty == 'PanicHost':
+                nm = args[1]
+                raise ExtDelegated(getattr(nm, 's', None) or str(nm))
+        it.observers['call_ext'] = on_call_ext
+        self.on_alias = None
+
+        load_name = [n for n in it.crate.mirs[0].names() if n.endswith('>::load')]
+        self.load_name = load_name[0] if len(load_name) == 1 else None
+        self.lemma_ok = {}
+        self.lemmas = 0
+
+        def real_load(it_, args):
+            h = it_.hooks.pop('load')
+            try:
+                mir = it_.crate.mirs[0]
+                return it_.call_body(mir, run.load_name, mir.get(run.load_name), args, None)
+            finally:
+                it_.hooks['load'] = h
+
+        def lemma(it_, ms_ref, n):
+            """solver-checked summary of the real MemoryStore::load body (run on its MIR, fresh symbolic word w, n live pointers):
+            for every w that is not a live handle, load(w, 1) == Ok(vec![w]).  Checked once per n and per generated program."""
+            if n in run.lemma_ok:
+                return run.lemma_ok[n]
+            w = z3.BitVec('lemma_w_%d' % n, 64)
+            tag = z3.BitVecVal(1 << 61, 64)
+            ms = it_.load((ms_ref.cont, ms_ref.key))
+            mir = it_.crate.mirs[0]
+
+            def path(sub_):
+                sub_.smt.add(z3.Not(z3.And(z3.UGE(w, tag + 1), z3.ULE(w, tag + n))))
+                r_ = sub_.call_body(mir, run.load_name, mir.get(run.load_name), [Ref([ms], 0), Sc('u64', w), Sc('usize', 1)], None)
+                if r_.variant != 0 or len(r_.fields[0].buf) != 1:
+                    return 'bad'
+                v = r_.fields[0].buf[0].v
+                if isinstance(v, int) or sub_.smt.check(v != w) != z3.unsat:
+                    return 'bad'
+                return 'ok'
+            # a separate query context: the current path condition is untouched
+            scratch = Smt(it_.smt.timeout_ms)
+            sub = Interp(it_.crate, scratch, Models())
+            ex = Explorer(scratch, 64)
+            try:
+                res = ex.explore(sub, path)
+                good = bool(res) and all(x[0] == 'ok' and x[1] == 'ok' for x in res) and not ex.unsupported and not ex.findings and not ex.truncated
+            except Exception:
+                good = False
+            run.lemma_ok[n] = good
+            run.lemmas += 1
+            return good
+
+        def load_hook(it_, args):
+            """MemoryStore::load(ptr, 1) returns the word itself when it is not a live memory handle (dynamic sniffing).  A word
+            that depends on the inputs is never a genuine handle here (allocation order is concrete).  If it CAN be bit-identical
+            to a live handle that is reported once (cause 'handle-aliasing') and then assumed away, so that other causes in the same
+            program are still decided; under that assumption the call is replaced by its lemma-checked summary Ok(vec![ptr])."""
+            if run.load_name is None or len(args) < 3 or type(args[1]) is not Sc or isinstance(args[1].v, int) or z3.is_bv_value(args[1].v):
+                return real_load(it_, args)
+            size = args[2].v if type(args[2]) is Sc else None
+            if not (isinstance(size, int) and size == 1) and not (size is not None and z3.is_bv_value(size) and size.as_long() == 1):
+                return real_load(it_, args)
+            w = args[1].v
+            ms = args[0]
+            msv = it_.load((ms.cont, ms.key)) if type(ms) is Ref else ms
+            if type(msv) is not Agg or len(msv.fields) != 2 or type(msv.fields[1]) is not VecV:
+                raise Unsupported('MemoryStore layout changed (expected {slots, ptrs})')
+            n = len(msv.fields[1].buf)
+            if not lemma(it_, ms if type(ms) is Ref else Ref([msv], 0), n):
+                return real_load(it_, args)
+            if n > 0:
+                tag = z3.BitVecVal(1 << 61, 64)
+                alias = z3.And(z3.UGE(w, tag + 1), z3.ULE(w, tag + n))
+                if run.on_alias is not None:
+                    run.on_alias(it_, alias)
+                it_.smt.add(z3.Not(alias))
+            it_.models.used['SUMMARY MemoryStore::load(non-handle word, 1) == Ok(vec![word]) (lemma checked on the real body)'] = 1
+            from mirsym.models import ok
+            return ok(VecV([Sc('u64', w)]))
+        if self.load_name is not None:
+            it.hooks['load'] = load_hook
         host = Agg('PanicHost', None, [])
         self.prog = it.call('MimiumProgram::<PanicHost>::with_host', [host], None)
         self.pref = Ref([self.prog], 0)
@@ -186,15 +279,34 @@ class RustAnalysis(progcheck.ProgramAnalysis):
             vm.run_main()
             now = [Sc('u64', 0)]
             rr = RustRun(it_rs, now)
-            rr.call_main()
+            cur = [0]
+
+            def on_alias(it_, alias):
+                if r.get('alias') is not None or r.get('alias_checks', 0) >= 40:
+                    return
+                r['alias_checks'] = r.get('alias_checks', 0) + 1
+                if it_.smt.check(alias) == z3.sat:
+                    r['alias'] = dict(step=cur[0], what='an input-dependent word passed to MemoryStore::load can equal a live memory handle', inputs=an.model_inputs(it_.smt.model(), cur[0], vm.n_in))
+            rr.on_alias = on_alias
+            try:
+                rr.call_main()
+            except ExtDelegated as e:
+                r.setdefault('delegated', []).append(e.name)
+                raise PathEnd()
             n_in = vm.n_in
             for k in range(an.steps):
                 ins = [Sc('u64', z3.BitVec('in_%d_%d' % (k, c), 64)) for c in range(n_in)]
                 vm.now[0] = Sc('u64', k)
                 now[0] = Sc('u64', k)
+                cur[0] = k
                 vm.set_input(ins)
                 _, vo = vm.run_dsp()
-                ro = rr.call_dsp(ins)
+                try:
+                    ro = rr.call_dsp(ins)
+                except ExtDelegated as e:
+                    if e.name not in r.setdefault('delegated', []):
+                        r['delegated'].append(e.name)
+                    raise PathEnd()
                 if len(vo) != len(ro):
                     raise PanicReached('generated dsp returns %d words, the VM %d' % (len(ro), len(vo)), 'width')
                 for c, (a, b) in enumerate(zip(vo, ro)):
@@ -284,7 +396,7 @@ def run(tier, seed):
     jobs = [('analysis', dict(cls=('checks.c18', 'RustAnalysis'), path=f, mir_paths=mirs, steps=steps, mode='bmc',
                               query_timeout_ms=5000 if quick else 30000, time_budget_s=budget, seed=seed)) for f in files]
     res = run_jobs(jobs)
-    refused, nchecks = [], 0
+    refused, nchecks, delegated, aliasing = [], 0, {}, []
     for r in res:
         st = r.get('status')
         if st == 'refused':
@@ -297,11 +409,24 @@ def run(tier, seed):
         if st == 'rustc_rejects':
             rep.finding('rustc-rejects:' + r['program'], dict(program=r['program'], msg='emitted Rust does not compile', rustc=(r.get('notes') or [''])[0][-600:]))
             continue
+        if r.get('delegated'):
+            delegated[r['program']] = r['delegated']
+            rep.skipped.append('%s: external function(s) %s are handed to the host; the minimal host refuses them at run time (Err from call_dsp)' % (r['program'], ', '.join(r['delegated'])))
         if not rep.absorb(r):
             continue
         nchecks += r.get('checks', 0)
         path = r.get('path')
         done = False
+        al = r.get('alias')
+        if al is not None:
+            rep.replays += 1
+            try:
+                ok, detail = confirm(path, r['rs'], al, r['steps'])
+            except Exception as e:
+                ok, detail = False, dict(error=repr(e))
+            if ok:
+                aliasing.append(r['program'])
+                rep.finding('handle-aliasing', dict(program=r['program'], step=al['step'], msg=al['what'], model=dict(inputs=al['inputs']), replay=detail))
         for d in r.get('divergences', []):
             if done:
                 break
@@ -332,7 +457,7 @@ def run(tier, seed):
                 rep.inconclusive.append('%s: obligation "%s" did not reproduce (VM and compiled generated program agree on the witness)' % (r['program'], d['msg'][:80]))
         if len(rep.samples) < 8:
             rep.samples.append(dict(program=r['program'], steps=r['steps'], feasible_paths=r['paths'], outputs_compared=r.get('checks'), decided_syntactically=r.get('checks_trivial')))
-    cov = dict(programs=max(1, len(rep.programs)), disagreements_checked=rep.replays, outputs_compared=nchecks, refused_by_emit_rust=refused,
+    cov = dict(programs=max(1, len(rep.programs)), disagreements_checked=rep.replays, outputs_compared=nchecks, refused_by_emit_rust=refused, refused_at_run_time_by_host=delegated, programs_with_confirmed_handle_aliasing=aliasing,
                bounds='corpus groups %s; BMC %d dsp steps from the initial state, all input words symbolic; rustc accepts each emitted file (checked by producing its MIR)' % (groups, steps))
     assumptions = ['the generated program is driven through MimiumProgram::with_host / call_main / call_dsp with a host whose clock is the sample index (like the repository\'s TestHost); current_time / sample_rate are stubbed',
                    'rustc nightly MIR of the emitted file (edition 2024, overflow checks on) is the analysed artefact; witnesses are re-run on a stable-rustc build of the same file',
